@@ -3,12 +3,18 @@
 package main
 
 import (
+	"bufio"
 	"encoding/json"
 	"flag"
 	"fmt"
 	"os"
+	"os/exec"
+	"path/filepath"
 	"runtime/debug"
+	"sort"
 	"strconv"
+	"strings"
+	"sync"
 
 	"verif/internal/ana"
 	"verif/rules"
@@ -19,6 +25,7 @@ func main() {
 	tier := flag.String("tier", "", "quick|thorough (default $VERIF_TIER or quick)")
 	verifDir := flag.String("verif", "", "verif directory (default: cwd)")
 	dump := flag.String("dump", "", "debug: dump SSA of pkg.func")
+	patch := flag.String("patch", "", "analyse the tree with this unified diff applied in memory (nothing is written to the repository, no evidence is written); exit 3 if it does not apply")
 	flag.Parse()
 	if *tier == "" {
 		*tier = os.Getenv("VERIF_TIER")
@@ -30,18 +37,157 @@ func main() {
 		*verifDir, _ = os.Getwd()
 	}
 	seed, _ := strconv.ParseInt(os.Getenv("VERIF_SEED"), 10, 64)
-	code := run(*prop, *tier, *verifDir, seed, *dump)
+	code := run(*prop, *tier, *verifDir, seed, *dump, *patch)
 	os.Exit(code)
 }
 
-func run(prop, tier, verifDir string, seed int64, dump string) (code int) {
+// patchOverlay applies a unified diff to copies of the files it touches and returns their new text
+// keyed by their path in the repository. The repository itself is not modified.
+func patchOverlay(repo, patch string) (map[string][]byte, error) {
+	abs, err := filepath.Abs(patch)
+	if err != nil {
+		return nil, err
+	}
+	f, err := os.Open(abs)
+	if err != nil {
+		return nil, err
+	}
+	defer f.Close()
+	files := map[string]bool{}
+	sc := bufio.NewScanner(f)
+	sc.Buffer(make([]byte, 1<<20), 1<<26)
+	for sc.Scan() {
+		l := sc.Text()
+		for _, pre := range []string{"--- a/", "+++ b/"} {
+			if strings.HasPrefix(l, pre) {
+				files[strings.TrimSpace(strings.SplitN(l[len(pre):], "\t", 2)[0])] = true
+			}
+		}
+	}
+	tmp, err := os.MkdirTemp("", "scioncheck-variant-")
+	if err != nil {
+		return nil, err
+	}
+	defer os.RemoveAll(tmp)
+	for rel := range files {
+		b, err := os.ReadFile(filepath.Join(repo, rel))
+		if err != nil {
+			continue // a file the diff creates
+		}
+		dst := filepath.Join(tmp, rel)
+		if err := os.MkdirAll(filepath.Dir(dst), 0o755); err != nil {
+			return nil, err
+		}
+		if err := os.WriteFile(dst, b, 0o644); err != nil {
+			return nil, err
+		}
+	}
+	cmd := exec.Command("git", "apply", "--whitespace=nowarn", abs)
+	cmd.Dir = tmp
+	cmd.Env = append(os.Environ(), "GIT_CEILING_DIRECTORIES="+filepath.Dir(tmp), "GIT_DIR=/nonexistent")
+	if out, err := cmd.CombinedOutput(); err != nil {
+		return nil, fmt.Errorf("git apply: %v: %s", err, strings.TrimSpace(string(out)))
+	}
+	ov := map[string][]byte{}
+	for rel := range files {
+		b, err := os.ReadFile(filepath.Join(tmp, rel))
+		if err != nil {
+			return nil, fmt.Errorf("the diff deletes %s (not supported)", rel)
+		}
+		if strings.HasSuffix(rel, ".go") {
+			ov[filepath.Join(repo, rel)] = b
+		}
+	}
+	return ov, nil
+}
+
+// seededAudit (thorough tier): every recorded source change that is known to break this
+// property (seeded/<property>-*/patch.diff, each confirmed by a failing demonstration) is
+// applied in memory to the current tree and the rules are run on the variant; the audit
+// reports which of them the rules flag. It measures the checker on today's tree - a pass of
+// the property check is the stronger, the more of the known ways to break it would have been
+// reported. A change that no longer applies to the tree is skipped.
+func seededAudit(prop, verifDir string) map[string]any {
+	dirs, _ := filepath.Glob(filepath.Join(verifDir, "seeded", prop+"-*"))
+	sort.Strings(dirs)
+	type res struct{ id, outcome, keys string }
+	out := make([]res, len(dirs))
+	sem := make(chan struct{}, 3)
+	var wg sync.WaitGroup
+	for i, d := range dirs {
+		wg.Add(1)
+		go func(i int, d string) {
+			defer wg.Done()
+			sem <- struct{}{}
+			defer func() { <-sem }()
+			var b []byte
+			var err error
+			code := 0
+			for attempt := 0; attempt < 2; attempt++ {
+				cmd := exec.Command(os.Args[0], "-p", prop, "-tier", "quick", "-verif", verifDir, "-patch", filepath.Join(d, "patch.diff"))
+				cmd.Env = os.Environ()
+				b, err = cmd.Output()
+				code = 0
+				if ee, ok := err.(*exec.ExitError); ok {
+					code = ee.ExitCode()
+				} else if err != nil {
+					code = 2
+				}
+				if code != 2 && code >= 0 {
+					break // a run that was killed or could not start is repeated once
+				}
+			}
+			var keys []string
+			for _, l := range strings.Split(string(b), "\n") {
+				if strings.HasPrefix(l, "  key=") && len(keys) < 3 {
+					keys = append(keys, strings.TrimPrefix(l, "  key="))
+				}
+			}
+			o := map[int]string{0: "not-flagged", 1: "flagged", 2: "checker-broken", 3: "does-not-apply"}[code]
+			if code == 2 {
+				for _, l := range strings.Split(string(b), "\n") {
+					if strings.HasPrefix(l, "BROKEN") && len(keys) < 2 {
+						keys = append(keys, l)
+					}
+				}
+				if err != nil {
+					keys = append(keys, err.Error())
+				}
+			}
+			if o == "" {
+				o = fmt.Sprintf("exit-%d", code)
+			}
+			out[i] = res{filepath.Base(d), o, strings.Join(keys, "; ")}
+		}(i, d)
+	}
+	wg.Wait()
+	tab := map[string]any{}
+	counts := map[string]int{}
+	for _, r := range out {
+		tab[r.id] = map[string]string{"outcome": r.outcome, "first_obligations": r.keys}
+		counts[r.outcome]++
+		fmt.Printf("seeded-change %s: %s %s\n", r.id, r.outcome, r.keys)
+	}
+	return map[string]any{"changes": tab, "counts": counts}
+}
+
+func run(prop, tier, verifDir string, seed int64, dump, patch string) (code int) {
 	defer func() {
 		if r := recover(); r != nil {
 			fmt.Printf("BROKEN: property=%s checker panic: %v\n%s\n", prop, r, debug.Stack())
 			code = 2
 		}
 	}()
-	p, err := ana.Load(ana.RepoDir(), "")
+	var initial map[string][]byte
+	if patch != "" {
+		ov, perr := patchOverlay(ana.RepoDir(), patch)
+		if perr != nil {
+			fmt.Printf("PATCH-NOAPPLY: %v\n", perr)
+			return 3
+		}
+		initial = ov
+	}
+	p, err := ana.LoadOverlay(ana.RepoDir(), "", initial)
 	if err != nil {
 		fmt.Printf("BROKEN: property=%s load failed: %v\n", prop, err)
 		return 2
@@ -76,6 +222,11 @@ func run(prop, tier, verifDir string, seed int64, dump string) (code int) {
 		return 2
 	}
 	res := ana.NewResult(prop, tier)
+	res.DryRun = patch != ""
 	rule(p, res)
+	if tier == "thorough" && patch == "" {
+		res.Table("seeded_change_audit", seededAudit(prop, verifDir))
+		res.Explain("Thorough tier: every obligation is listed in the evidence, and the rules are additionally run on in-memory variants of the current tree, one per recorded property-breaking change (seeded/" + prop + "-*), to report how many of the known ways to break the property they flag (table seeded_change_audit); the variants are never written to the repository and never executed.")
+	}
 	return res.Finish(verifDir, seed)
 }
